@@ -337,6 +337,18 @@ def run_case(chk, stream, case):
         return fails
     if again != data:
         fails.append(oracle("C10:reserialised-payload-differs:%s" % name, "%s: the payload parsed from a peer re-serialises to different bytes" % ctx))
+    # ---- the object still holds what the application composed: printing it and converting it a second time gives the same payload
+    try:
+        str(obj)
+        data2 = ps.to_proto(name, obj).SerializeToString()
+        back2 = " ".join(tokens_of(name, ps.from_proto(name, parsed), table))
+    except Exception as e:
+        fails.append(oracle("C10:second-conversion-raises:%s" % name, "%s: converting the same object a second time raises %s: %s" % (ctx, type(e).__name__, str(e)[:100])))
+        return fails
+    if data2 != data:
+        fails.append(oracle("C10:second-conversion-differs:%s" % name, "%s: the same composed object converts to different bytes the second time" % ctx))
+    if back2 != got:
+        fails.append(oracle("C10:second-parse-differs:%s" % name, "%s: the same payload parses to different fields the second time: %s / %s" % (ctx, got[:150], back2[:150])))
     return fails
 
 
